@@ -5,7 +5,7 @@ configuration(s) of the property, (2) the Go harness executes the real code
 the property's clauses at every event, (4) evidence is written."""
 import glob, json, os, re, shutil, subprocess, time
 import vlib
-from vlib import log, Inconclusive, VERIF, SPEC, HARNESS
+from vlib import log, Inconclusive, VERIF, SPEC, HARNESS, OUTROOT
 
 # clause prefixes that decide each property in the core trace specification
 CORE = {
@@ -16,7 +16,7 @@ CORE = {
     'C03': dict(prefixes=['C03_'], mc_q=[('MC_crash2_q', 300), ('MC_durable_q', 300)], mc_t=[('MC_durable', 1500), ('MC_crash2_t', 1500)],
                 fam_q=[('images', 24), ('crash2', 24), ('memmerge', 32)], fam_t=[('images', 400), ('crash2', 400), ('memmerge', 600)]),
     'C04': dict(prefixes=['C04_'], mc_q=[('MC_readers_q', 300)], mc_t=[('MC_readers_t', 1500)],
-                fam_q=[('readers', 240)], fam_t=[('readers', 4000)]),
+                fam_q=[('readers', 240), ('faults', 96), ('free', 48)], fam_t=[('readers', 4000), ('faults', 1500), ('free', 1000)]),
     'C05': dict(prefixes=['C05_', 'C01_RootIsAbstract', 'C01_reader'], mc_q=[('MC_linear_q', 300)], mc_t=[('MC_linear_t', 1500)],
                 fam_q=[('conc', 200), ('free', 96), ('dfs2', 1)], fam_t=[('conc', 4000), ('free', 2000), ('dfs2', 3)]),
     'C06': dict(prefixes=['C06_'], mc_q=[('MC_merge_q', 300)], mc_t=[('MC_merge_t', 1500)],
@@ -25,7 +25,7 @@ CORE = {
                 fam_q=[('files', 240)], fam_t=[('files', 4000)]),
     'C14': dict(prefixes=['C14_', 'C02_', 'C03_', 'C01_RootIsAbstract', 'C04_'], mc_q=[('MC_faults_q', 300)], mc_t=[('MC_faults_t', 1500)],
                 fam_q=[('faults', 160)], fam_t=[('faults', 3000)]),
-    'C15': dict(prefixes=['C15_'], mc_q=[('MC_close_q', 300)], mc_t=[('MC_close_t', 1500), ('MC_live', 1500)],
+    'C15': dict(prefixes=['C15_', 'C04_reader_changed'], mc_q=[('MC_close_q', 300)], mc_t=[('MC_close_t', 1500), ('MC_live', 1500)],
                 fam_q=[('close', 200), ('free', 96)], fam_t=[('close', 4000), ('free', 2000)]),
 }
 
@@ -93,11 +93,19 @@ def core_check(prop, tier, seed, sd, t0):
     viols, known, samples, famstats = [], [], [], {}
     strict = []
     driver_deaths = []
+    livelocks = []
     for fam, n in fams:
         out, logs = vlib.drive(binp, sd, fam, n, seed, timeout=900 if tier == 'quick' else 3000)
         for shard, rc, o in logs:
             if rc != 0:
-                driver_deaths.append((fam, shard, rc, o[:4000] + '\n...\n' + o[-4000:]))
+                tail = o[:4000] + '\n...\n' + o[-4000:]
+                if rc == 77 and 'harness-watchdog: livelock' in o:
+                    # which goroutines were busy (not blocked) inside the code under test?
+                    busy = [g.split('\n')[0] + ' ' + ' <- '.join(re.findall(r'github.com/blugelabs/bluge/index\.\(?\*?\w*\)?\.?(\w+)', g)[:4])
+                            for g in o.split('\n\n') if re.match(r'goroutine \d+ \[(running|runnable)', g) and 'github.com/blugelabs/bluge/index.' in g]
+                    tail = 'LIVELOCK busy goroutines of the code under test: %s\n%s' % (busy[:6], tail)
+                    livelocks.append((fam, shard, busy))
+                driver_deaths.append((fam, shard, rc, tail))
         runs = vlib.load_runs(out)
         # (3) TLC decides every recorded execution
         for res in vlib.validate_all(sd, out):
@@ -149,7 +157,7 @@ def core_check(prop, tier, seed, sd, t0):
         rc = 1
     if driver_deaths:
         fam, shard, drc, tail = driver_deaths[0]
-        d = os.path.join(VERIF, 'replays', prop, '%d-%s-driver-death' % (int(time.time()), seed))
+        d = os.path.join(OUTROOT, 'replays', prop, '%d-%s-driver-death' % (int(time.time()), seed))
         os.makedirs(d, exist_ok=True)
         open(os.path.join(d, 'driver.log'), 'w').write(tail)
         crumbs = glob.glob(os.path.join(sd, 'out-' + fam, 'current-s%d.json' % shard))
@@ -157,7 +165,13 @@ def core_check(prop, tier, seed, sd, t0):
             shutil.copy(crumbs[0], os.path.join(d, 'meta.json'))
         in_code = 'github.com/blugelabs/bluge' in tail and ('panic' in tail or 'fatal error' in tail or 'SIGSEGV' in tail)
         harness_bug = 'harness:' in tail
-        if in_code and not harness_bug and prop in ('C03', 'C04', 'C14', 'C15'):
+        if drc == 77 and tail.startswith('LIVELOCK') and any(b for _, _, b in livelocks) and prop in ('C14', 'C15'):
+            # goroutines of the writer spin (never durably blocked, so synctest cannot call it a deadlock): it does not terminate
+            log('VIOLATION property=%s replay=%s' % (prop, d))
+            log('  livelock: no event for 60 s of real time inside one execution while goroutines of the writer stay busy: %s (family %s shard %d)'
+                % (livelocks[0][2][:3], fam, shard))
+            rc = 1
+        elif in_code and not harness_bug and prop in ('C03', 'C04', 'C14', 'C15'):
             log('VIOLATION property=%s replay=%s' % (prop, d))
             log('  the driver process died inside the code under test (family %s shard %d rc %d)' % (fam, shard, drc))
             rc = 1
@@ -182,6 +196,13 @@ def core_check(prop, tier, seed, sd, t0):
                                 'C11_Retained and C11_AtLeastN for any number of commits, clean-ups and failed removals (unbounded in the number of steps; epochs and '
                                 'segment ids range over small finite domains)')
     nviol = len(viols)
+    if prop == 'C04':
+        # many different searches on one reader, each twice (Search.tla / SearchTrace.tla)
+        rc2, scov = vextra.search_subcheck(prop, tier, seed, sd, ('C04_', 'C07_'))   # C04: '... namely that of the abstract index at the time it was obtained'
+        cov['searches_on_held_readers'] = scov
+        if rc2:
+            rc = 1
+            nviol += scov.get('violations', 1)
     if prop == 'C11':
         # handles of the offline writer (Offline.tla / OfflineTrace.tla)
         rc2, ocov = vextra.offline_subcheck(prop, tier, seed, sd, ('C11_',))
